@@ -32,6 +32,11 @@ def expand(ops):
             for i in range(op["n"]):
                 out.append({"op": "insert", "b": op["b"], "e": [i % 50, i % 4, "abc"[i % 3]]})
             out.append({"op": op["then"], "b": op["b2"], "v": op.get("v", 0)})
+        elif op["op"] == "heartbeat_run":
+            # the heartbeat pattern: the newest event rewritten again and again with the same start and data, only longer
+            out.append({"op": "insert", "b": op["b"], "e": [49, 0, "h"]})
+            for i in range(op["n"]):
+                out.append({"op": "extend_last", "b": op["b"], "dur_s": 1 + i})
         elif op["op"] == "big_bucket_delete":
             # a bucket with more than a thousand events, then its deletion: still one indivisible operation
             out.append({"op": "bulk", "b": op["b"], "n": op["n"], "seed": op.get("v", 0), "upd": 0})
@@ -69,6 +74,23 @@ def live_ids(L, backend):
     for v in out.values():
         v.sort()
     return out
+
+
+def newest_start_us(L, backend, name):
+    """start instant (us) of the newest event of a bucket, from a raw dump"""
+    bt, et = ("buckets", "events") if backend == "sqlite" else ("bucketmodel", "eventmodel")
+    rid = next((r for (t, r), row in L.items() if t == bt and row[1] == name), None)
+    best = None
+    for (t, _), row in L.items():
+        if t == et and row[1] == rid:
+            if backend == "sqlite":
+                us = int(round(row[2]))
+            else:
+                import iso8601
+
+                us = gen.to_us(iso8601.parse_date(row[2]))
+            best = us if best is None or us > best else best
+    return best
 
 
 class Runner:
@@ -159,6 +181,14 @@ class Runner:
                     ds[name].replace_last(_spec_event(Event, *op["e"]))
                 else:
                     ds[name].delete(mine[op["k"] % len(mine)])
+            elif kind == "extend_last":
+                done = "replace_last"
+                top = newest_start_us(L, self.backend, name)
+                if top is None:
+                    done = "insert"
+                    ds[name].insert(_spec_event(Event, 1, 1, "z"))
+                else:
+                    ds[name].replace_last(Event(timestamp=gen.dt_utc(top), duration=timedelta(seconds=op.get("dur_s", 1)), data={"l": "h"}))
             elif kind == "read":
                 done = "read"
                 b = ds[name]
@@ -194,14 +224,15 @@ def history_strategy(max_ops=60, with_reads=True, max_bulk=130):
         st.fixed_dictionaries({"op": st.just("replace_last"), "b": b, "e": ev}),
         st.fixed_dictionaries({"op": st.just("delete"), "b": b, "k": st.integers(0, 500)}),
     )
-    bulk = st.fixed_dictionaries({"op": st.just("bulk"), "b": b, "n": st.one_of(st.integers(0, 12), st.sampled_from([49, 50, 51, 99, 100, 101]), st.integers(0, max_bulk)), "seed": st.integers(0, 10**6), "upd": st.integers(0, 5)})
+    bulk = st.fixed_dictionaries({"op": st.just("bulk"), "b": b, "n": st.one_of(st.integers(0, 12), st.sampled_from([0, 0, 49, 50, 51, 99, 100, 101]), st.integers(0, max_bulk)), "seed": st.integers(0, 10**6), "upd": st.one_of(st.integers(0, 5), st.sampled_from([20, 60, 120]))})
+    hbrun = st.fixed_dictionaries({"op": st.just("heartbeat_run"), "b": b, "n": st.sampled_from([3, 30, 60, 90])})
     delrun = st.fixed_dictionaries({"op": st.just("delete_run"), "b": b, "n": st.integers(2, 90), "k": st.integers(0, 50)})
     bucket = st.fixed_dictionaries({"op": st.sampled_from(["create_bucket", "update_bucket", "delete_bucket"]), "b": b, "v": st.integers(0, 9)})
     read = st.fixed_dictionaries({"op": st.just("read"), "b": b, "kind": st.sampled_from(["get", "count", "by_id"])})
     rejected = st.fixed_dictionaries({"op": st.sampled_from(["delete_missing", "bulk_stale", "bulk_stale"]), "b": b, "v": st.integers(0, 9)})
     backlog = st.fixed_dictionaries({"op": st.just("backlog_then_bucket_op"), "b": b, "b2": b, "n": st.sampled_from([48, 49, 50, 50, 51]), "then": st.sampled_from(["delete_bucket", "delete_bucket", "update_bucket", "create_bucket"]), "v": st.integers(0, 9)})
     big = st.fixed_dictionaries({"op": st.just("big_bucket_delete"), "b": b, "n": st.sampled_from([1001, 1100, 2100]), "v": st.integers(0, 99)})
-    parts = [single, single, single, single, single, single, bulk, delrun, bucket, rejected, backlog] * 3 + [big]
+    parts = [single, single, single, single, single, single, bulk, delrun, bucket, rejected, backlog, hbrun] * 3 + [big]
     if with_reads:
         parts.append(read)
     return st.lists(st.one_of(*parts), min_size=5, max_size=max_ops)
